@@ -545,6 +545,14 @@ def values_equal(ex, st, a, b):
     U = _U()
     ra, rb = a, b
     a, b = st.deref(a), st.deref(b)
+    if isinstance(a, SSeq) and isinstance(b, SSeq):
+        if a is b:
+            return True
+        if a.arr.sort() != b.arr.sort():
+            return False
+        # same length and same elements below the length
+        j = z3.Int(fresh_name("eqj"))
+        return z3.And(a.n == b.n, z3.Or(a.arr == b.arr, z3.ForAll([j], z3.Implies(z3.And(j >= 0, j < a.n), a.arr[j] == b.arr[j]))))
     if isinstance(a, SV) or isinstance(b, SV):
         if not isinstance(a, SV):
             a, b = b, a
@@ -955,6 +963,8 @@ def getattr_(ex, st, v, attr):
             yield st, ex.module_attr(v.name, attr, st)
         elif sub is not None:
             yield st, ModuleRef(v.name + "." + attr)
+        elif (v.name, attr) in ex.db.const_overrides:
+            yield st, ex.db.const_overrides[(v.name, attr)]
         else:
             yield st, external_attr(ex, v.name, attr)
         return
